@@ -133,7 +133,7 @@ func (c *Ctx) guard(s *obSink, pkg, fn, key string, must []string, what, consequ
 func ruleRefusals(c *Ctx) []Ob {
 	s := newSink(c, "R.refusals")
 	// ---- kinds
-	fd, p := c.funcDecl(pkgDefs, "doParseType")
+	fd, _ := c.funcDecl(pkgDefs, "doParseType")
 	if fd == nil {
 		s.bad("doParseType", "-", "not found")
 		return s.obs
@@ -149,70 +149,47 @@ func ruleRefusals(c *Ctx) []Ob {
 		"Float64": "T_double", "Map": "T_map", "String": "T_string", "Struct": "T_struct", "Slice": "<slice>"}
 	allKinds := []string{"Invalid", "Bool", "Int", "Int8", "Int16", "Int32", "Int64", "Uint", "Uint8", "Uint16", "Uint32", "Uint64", "Uintptr",
 		"Float32", "Float64", "Complex64", "Complex128", "Array", "Chan", "Func", "Interface", "Map", "Pointer", "Slice", "String", "Struct", "UnsafePointer"}
-	if sw == nil {
-		s.bad("kind-switch", c.Pos(fd.Pos()), "doParseType has no switch on the Go kind")
+	_ = sw
+	if pf := c.SSA[pkgDefs].Func("doParseType"); pf == nil || len(pf.Params) == 0 {
+		s.bad("kind-switch", c.Pos(fd.Pos()), "doParseType not found in the SSA program")
 	} else {
-		outcome := map[string]string{} // kind name -> tag / "error" / "<slice>"
-		defOutcome := "fallthrough"
-		kindVal := func(e ast.Expr) (string, bool) {
-			tv := p.TypesInfo.Types[e]
-			if tv.Value == nil {
-				return "", false
-			}
-			v, _ := constant.Int64Val(tv.Value)
-			for _, kn := range allKinds {
-				if o, ok := c.ByPath["reflect"].Types.Scope().Lookup(kn).(*types.Const); ok {
-					if kv, _ := constant.Int64Val(o.Val()); kv == v {
-						return kn, true
-					}
-				}
-			}
-			return "", false
-		}
-		for _, cl := range sw.Body.List {
-			cc := cl.(*ast.CaseClause)
-			res := "fallthrough"
-			if len(cc.Body) > 0 {
-				switch st := cc.Body[0].(type) {
-				case *ast.AssignStmt:
-					if len(st.Lhs) == 1 && types.ExprString(st.Lhs[0]) == "tag" {
-						res = nows(types.ExprString(st.Rhs[0]))
-					}
-				case *ast.ReturnStmt:
-					if len(st.Results) == 2 {
-						if id, ok := st.Results[1].(*ast.Ident); !ok || id.Name != "nil" {
-							res = "error"
-						}
-					}
-				case *ast.BranchStmt:
-					if st.Tok == token.BREAK {
-						res = "<slice>"
-					}
-				}
-			}
-			if cc.List == nil {
-				defOutcome = res
-				continue
-			}
-			for _, e := range cc.List {
-				if kn, ok := kindVal(e); ok {
-					outcome[kn] = res
-				}
-			}
+		tagName := map[int64]string{}
+		for n, v := range c.defsTags() {
+			tagName[v] = n
 		}
 		for _, kn := range allKinds {
 			if kn == "Pointer" {
-				continue // handled before the switch
+				continue // handled by the nested-pointer / pointer-to-container rows
 			}
-			res, ok := outcome[kn]
+			o, ok := c.ByPath["reflect"].Types.Scope().Lookup(kn).(*types.Const)
 			if !ok {
-				res = defOutcome
+				continue
+			}
+			kv, _ := constant.Int64Val(o.Val())
+			w := &kindWalker{c: c, fn: pf, param: pf.Params[0], kind: kv, pkg: pkgDefs, env: map[ssa.Value]kval{}}
+			end, tag, at := w.run("Tag")
+			res := end
+			if end == "continues" || end == "return" {
+				switch {
+				case tag.sym != "":
+					res = "T_" + strings.TrimPrefix(tag.sym, "T_")
+				case tag.known && tag.i == 0:
+					res = "<slice>"
+				case tag.known:
+					res = tagName[tag.i]
+				default:
+					res = "undetermined"
+				}
+			}
+			pos := c.Pos(pf.Pos())
+			if at != nil {
+				pos = c.InstrPos(at)
 			}
 			key := "kind:" + kn
 			if want, accepted := wantTag[kn]; accepted {
-				s.check(res == want, key, c.Pos(sw.Pos()), kn+" -> "+want, "Go kind "+kn+" is mapped to "+res+", expected "+want)
+				s.check(res == want, key, pos, kn+" -> "+want, "Go kind "+kn+" is mapped to "+res+", expected "+want)
 			} else {
-				s.check(res == "error", key, c.Pos(sw.Pos()), kn+" is refused", "Go kind "+kn+", which Thrift cannot express, is not refused (outcome: "+res+")")
+				s.check(res == "error", key, pos, kn+" is refused", "Go kind "+kn+", which Thrift cannot express, is not refused (outcome: "+res+")")
 			}
 		}
 	}
@@ -965,7 +942,7 @@ func ruleE12(c *Ctx) []Ob {
 			}
 		}
 		found, inside, condOK := len(origins) > 0, true, true
-		pos := "-"
+		pos, why := "-", ""
 		for _, o := range origins {
 			pos = o.pos
 			isI64, notI64Type, noKeyword := false, false, false
@@ -989,14 +966,35 @@ func ruleE12(c *Ctx) []Ob {
 					}
 				}
 			}
+			// the upgrade belongs to the path on which the annotation was accepted as the type's name (doMatchStruct said ok),
+			// with no further condition: a named int64 whose (possibly qualified) name was matched is an enum
+			matched := false
+			extra := ""
+			for _, cd := range o.conds {
+				if ex, ok := cd.V.(*ssa.Extract); ok && cd.Truth {
+					if mc, ok := ex.Tuple.(*ssa.Call); ok && mc.Call.StaticCallee() != nil && mc.Call.StaticCallee().Name() == "doMatchStruct" && isBoolType(ex.Type()) {
+						matched = true
+					}
+				}
+				if bo, ok := cd.V.(*ssa.BinOp); ok && (bo.Op == token.EQL || bo.Op == token.NEQ) && isStringType(bo.X.Type()) {
+					if _, isC := bo.Y.(*ssa.Const); !isC {
+						extra = "a comparison of two strings (" + path(bo.X) + " with " + path(bo.Y) + ")"
+					}
+				}
+			}
 			if !(isI64 && notI64Type) {
 				condOK = false
 			}
-			if !noKeyword {
+			if !noKeyword || !matched || extra != "" {
 				inside = false
+				if extra != "" {
+					why = "; the upgrade additionally depends on " + extra
+				} else if !matched {
+					why = "; the upgrade is not on the path where doMatchStruct accepted the name"
+				}
 			}
 		}
-		s.check(found && inside && condOK, "enum-upgrade", pos, "int64-kinded named types become enums only when the annotation names the type", fmt.Sprintf("enum upgrade: present %v, conditioned on tag == T_i64 && vt != i64type %v, inside the keyword-mismatch (name match) chain %v: a named int64 annotated with the keyword i64 would silently become a 32-bit enum", found, condOK, inside))
+		s.check(found && inside && condOK, "enum-upgrade", pos, "int64-kinded named types become enums only when the annotation names the type", fmt.Sprintf("enum upgrade: present %v, conditioned on tag == T_i64 && vt != i64type %v, inside the keyword-mismatch (name match) chain %v%s: a named int64 annotated with the keyword i64 would silently become a 32-bit enum, or one annotated with its (qualified) name would stay i64", found, condOK, inside, why))
 	}
 	// descriptor cache key
 	if nt := c.SSA[pkgReflect].Func("newTType"); nt != nil {
